@@ -71,7 +71,8 @@ void h_write(void) {
     if (len == 0) __CPROVER_assert(h.buf[woff] == buf0[woff] && g_c_calls == 0, "C05 sha256_write (d): an empty write changes nothing");
 
     if (g_c_calls >= 2 && wblk == b0 / 64 && woff >= b0 % 64) REACH("write: tail completed and bulk call, watched byte from data in block 0");
-    if (g_c_calls >= 2 && wblk == b0 / 64 + 5000 && len > 400000) REACH("write: long input, watched block 5000");
+    if (MAXLEN > 400000 && g_c_calls >= 2 && wblk == b0 / 64 + 5000 && len > 400000) REACH("write: long input, watched block 5000");
+    if (MAXLEN <= 400000 && g_c_calls >= 2 && wblk == b0 / 64 + 2 && len > 200) REACH("write: bounded variant, watched block 2");
     if (g_c_calls == 0 && len > 0 && woff < b1 % 64 && woff >= b0 % 64) REACH("write: buffered only");
     if (g_c_calls >= 1 && b0 % 64 == 0 && b1 % 64 == 0 && len > 64) REACH("write: aligned bulk");
     REACH("write end");
@@ -85,7 +86,7 @@ void h_write_c(void) {
     INPUT(uint64_t, wblk); INPUT(unsigned, woff); INPUT(unsigned, sk);
     INPUT(size_t, c_calls); INPUT(int, cw_hit); INPUT(unsigned char, cw_byte);
     secp256k1_sha256 h; secp256k1_hash_ctx hc; unsigned char *data; uint64_t blocks0;
-    __CPROVER_assume(len <= MAXLEN);
+    __CPROVER_assume(len <= MAXLEN && sk < 8 && woff < 64);
     INPUT_BUF(datac, data, len, 64);
     memcpy(h.s, sc, 32); memcpy(h.buf, bufc, 64); h.bytes = b0;
     hc.fn_sha256_compression = verif_compress;
